@@ -124,7 +124,14 @@ def renderEffect : Effect Nat → String
   | .invoke h => s!"invoke {h}"
   | .refuse id tag code => s!"refuse id={id} tag={tag} code={code}"
 
+/-- the model's `strings.EqualFold` is ASCII: a table with non-ASCII search criteria is outside it -/
+def nonAsciiCriteria (regs : List (Reg Nat)) : Bool :=
+  regs.any fun
+    | .route (.search b f _) _ => (b ++ f).any (fun c => c.toNat ≥ 128)
+    | _ => false
+
 def doMux (regs : List (Reg Nat)) (bs : Bytes) (dec : Option Bytes) : String :=
+  if nonAsciiCriteria regs then "unmodelled" else
   let env : Env := { ext := extTrue, decompile := fun _ => dec }
   match serveFrame env Generated.guards bs with
   | .ok msg =>
@@ -392,6 +399,7 @@ def renderEnding : Session.Ending → String
 /-- `session <lock|pipe> routes=.. scripts=.. filters=.. in=<hex>`: the whole conversation of one connection -/
 def doSession (mode : String) (regs : List (Reg Nat)) (scripts : List (List Session.RespSpec))
     (ftab : List (Bytes × Option Bytes)) (input : Bytes) : String :=
+  if nonAsciiCriteria regs then "unmodelled" else
   let cfg : Session.Cfg := { regs := regs, script := fun k _ => scripts.getD k [] }
   let run (ext) : List Bytes × Session.Ending × List (Nat × Int) :=
     let env : Env := { ext := ext, decompile := fun n => (ftab.find? (fun e => e.1 == ser n)).bind (·.2) }
